@@ -1,5 +1,6 @@
 import Swat4.Lemmas.StoreConsistent
 import Swat4.Lemmas.StoreDrv
+import Swat4.Lemmas.LockTTL
 /-!
 # C10 — Storage indexes agree with the records after a crash at any point; every lock key carries an expiry
 
@@ -298,5 +299,119 @@ theorem facts_lock_ttl :
       [("updateExclusive", "r.locker", "ctx context.Context, lockKey, r.lockOpts.LeaseDuration, func")] ∧
     0 < Facts.lockLeaseMs := by
   decide
+
+end Swat4.C10
+
+/-! # Additions (review round 2): "no crash can block a server forever" in terms of what the model has
+
+The reviewer's observation is correct: `LockCell.ttl` is **decorative** in the model.  `RStore.lockExpire`
+(`Model/Store.lean`) removes the cell without reading the flag, `lockSetNX` writes `ttl := true` unconditionally, so
+`lock_ttl` / `Consistent.ttl` are true by construction and play no part in any liveness argument.  What the model *does*
+have is the event `Ev.expire k` (the lease of `servers:lock:<k>` runs out), which the scheduler may fire at any point.
+The theorems below state "a dead holder does not block its address" with that event:
+
+* a *dead* client is one that is never scheduled again (`Sys` has no separate death event: a client that takes no further
+  step is exactly a process that died at a command boundary, which is how `C10_crash` reads it);
+* `blocked_while_held`: as long as the cell is there, every other call's `SET NX` on that address fails — the address *is*
+  blocked until the lease runs out (or the holder releases);
+* `holder_death_unblocks`: after `Ev.expire k`, whoever held the cell and whether or not it is alive, the next `SET NX` on
+  `k` by any client succeeds; `holder_death_unblocks_writer`: the same as two events of the system.
+
+**The premise that the event `Ev.expire k` can happen at all — "the key has a TTL" — is not a fact of the model.**  It is
+pinned by the source-fact theorem `facts_lock_ttl` (one `SetNX` whose TTL argument is `Guard`'s `ttl`, filled with the
+positive lease; no `Expire` / `Persist` / plain `Set`) and by the TTL flag in the keyspace dumps of the differential run.
+`lockExpire_respects_ttl` says what the flag would be for if the model read it: on every reachable store the model's
+expiry coincides with the TTL-respecting expiry `lockExpireTTL`, and a cell *without* TTL would never be freed by it. -/
+namespace Swat4.C10
+open Swat4 Swat4.RStore Std
+
+/-- the lease-expiry event frees the lock key, whatever it held and whether or not expiry invalidates watchers -/
+theorem expire_frees (s : Sys) (k : Nat) : (s.step (.expire k)).store.locks[k]? = none :=
+  RStore.lockExpire_frees s.store k s.dirties
+
+/-- **`holder_death_unblocks`** (clause "every lock key carries an expiry, so no crash can block a server forever"): in
+any state — in particular one where `servers:lock:<k>` is held by a client that has died and will never release it —
+after the lease-expiry event of that key, a `SET NX` on `k` by **any** client with any token succeeds and installs that
+client's cell (again with a TTL).  The premise "the key has a TTL, so the expiry event does occur" is pinned by
+`facts_lock_ttl`, not by the model (where `LockCell.ttl` is not read by `lockExpire`). -/
+theorem holder_death_unblocks (s : Sys) (k tok : Nat) :
+    ((s.step (.expire k)).store.lockSetNX k tok).2 = true ∧
+    ((s.step (.expire k)).store.lockSetNX k tok).1.locks[k]? = some ⟨tok, true⟩ := by
+  rw [RStore.lockSetNX_none (expire_frees s k)]
+  refine ⟨rfl, ?_⟩
+  show ((s.step (.expire k)).store.locks.insert k ⟨tok, true⟩)[k]? = _
+  simp
+
+/-- … as two events of the interleaved system: a registry call `j` standing at its `SET NX` acquires the lock of its
+address right after that key's lease expired — whoever held it before — and moves on to `WATCH` -/
+theorem holder_death_unblocks_writer (s : Sys) (j : Nat) (w : Writer) (hc : s.clients[j]? = some (.writer w))
+    (hpc : w.pc = .setnx) :
+    (((s.step (.expire w.key)).step (.step j)).store.locks[w.key]? = some ⟨w.tok, true⟩) ∧
+    ((s.step (.expire w.key)).step (.step j)).clients[j]? = some (.writer { w with pc := .watch }) := by
+  have hc' : (s.step (.expire w.key)).clients[j]? = some (.writer w) := hc
+  have hw : wstep (s.step (.expire w.key)).store (s.step (.expire w.key)).clock (s.step (.expire w.key)).nextTok j w =
+      (((s.step (.expire w.key)).store.lockSetNX w.key w.tok).1, { w with pc := .watch }, false, none) := by
+    have h2 : ((s.step (.expire w.key)).store.lockSetNX w.key w.tok).2 = true := (holder_death_unblocks s w.key w.tok).1
+    simp only [wstep, hpc]
+    exact if_pos h2
+  refine ⟨?_, ?_⟩
+  · rw [Sys.step_writer _ j w hc', hw]
+    exact (holder_death_unblocks s w.key w.tok).2
+  · rw [Sys.step_clients_self_writer _ j w hc', hw]
+
+/-- **why the expiry is needed**: while the cell of `k` exists — e.g. its holder died before releasing — a call standing
+at its `SET NX` on `k` does not get the lock: the command changes nothing in the store -/
+theorem blocked_while_held (s : Sys) (j : Nat) (w : Writer) (hc : s.clients[j]? = some (.writer w)) (hpc : w.pc = .setnx)
+    (c : LockCell) (hheld : s.store.locks[w.key]? = some c) :
+    (s.step (.step j)).store = s.store := by
+  have hheld' : s.store.locks[w.op.svr.addr.key]? = some c := hheld
+  rw [Sys.step_writer s j w hc]
+  show (wstep s.store s.clock s.nextTok j w).1 = s.store
+  simp only [wstep, hpc, RStore.lockSetNX_some hheld']
+  split <;> rfl
+
+/-- **what the `ttl` flag would be for**: on every reachable store (all cells carry a TTL: `lock_ttl`) the model's expiry
+is the TTL-respecting expiry `lockExpireTTL`, which frees only keys that carry a TTL; a cell without TTL survives it — its
+address would stay blocked for good.  This is the only place where `Consistent.ttl` does work for liveness, and it is why
+`facts_lock_ttl` (the source creates every lock key with a TTL) is the premise of `holder_death_unblocks`. -/
+theorem lockExpire_respects_ttl (s : Sys) (h : Consistent s.store) (es : List Ev) (k : Nat) (d : Bool) :
+    (s.run es).store.lockExpire k d = (s.run es).store.lockExpireTTL k d ∧
+    ∀ (st : RStore) (c : LockCell), st.locks[k]? = some c → c.ttl = false → st.lockExpireTTL k d = st :=
+  ⟨RStore.lockExpire_eq_TTL (fun k' c hc => lock_ttl s h es k' c hc) k d,
+   fun _ _ hc ht => RStore.lockExpireTTL_persistent hc ht d⟩
+
+/-- a registry call that has taken the lock of its address and then dies (never scheduled again), and a second call on
+the same address -/
+def deadHolder : Sys :=
+  { store := {}, clock := 0, nextTok := 2,
+    clients := [.writer (Writer.start ⟨.add, demoServer, fun _ => none⟩ 0),
+                .writer (Writer.start ⟨.add, demoServer, fun _ => none⟩ 1)] }
+
+set_option maxRecDepth 100000 in
+/-- non-vacuity: client 0 acquires the lock and dies (takes no further step).  Client 1 burns all five attempts against the
+held lock and gives up (`lockExhausted`) — blocked; had the lease expired first, its first `SET NX` would have succeeded
+(`holder_death_unblocks_writer`: cell with client 1's token, pc `watch`) -/
+example :
+    (deadHolder.run [.step 0]).store.locks[demoServer.addr.key]? = some ⟨0, true⟩ ∧
+    ((deadHolder.run ([.step 0] ++ List.replicate 5 (.step 1))).clients[1]?).map
+      (fun c => match c with | .writer w => w.pc.fin? | _ => none) = some (some (.error .lockExhausted)) ∧
+    (deadHolder.run [.step 0, .expire demoServer.addr.key, .step 1]).store.locks[demoServer.addr.key]? = some ⟨1, true⟩ := by
+  refine ⟨by decide, by rfl, by decide⟩
+
+set_option maxRecDepth 100000 in
+/-- the hypotheses of `blocked_while_held` / `holder_death_unblocks_writer` hold in that state: client 1 stands at its
+`SET NX` while client 0's cell is there; its step changes nothing in the store, and after the expiry it acquires -/
+example :
+    ((deadHolder.run [.step 0]).step (.step 1)).store = (deadHolder.run [.step 0]).store ∧
+    (((deadHolder.run [.step 0]).step (.expire demoServer.addr.key)).step (.step 1)).store.locks[demoServer.addr.key]? =
+      some ⟨1, true⟩ :=
+  ⟨blocked_while_held (deadHolder.run [.step 0]) 1 (Writer.start ⟨.add, demoServer, fun _ => none⟩ 1) rfl rfl ⟨0, true⟩
+      (by decide),
+   (holder_death_unblocks_writer (deadHolder.run [.step 0]) 1 (Writer.start ⟨.add, demoServer, fun _ => none⟩ 1) rfl rfl).1⟩
+
+/-- `lockExpire_respects_ttl` applies to everything reachable from the empty keyspace -/
+example (es : List Ev) (k : Nat) (d : Bool) :
+    (deadHolder.run es).store.lockExpire k d = (deadHolder.run es).store.lockExpireTTL k d :=
+  (lockExpire_respects_ttl deadHolder consistent_empty es k d).1
 
 end Swat4.C10
